@@ -49,6 +49,7 @@ type world struct {
 	hist []string
 
 	cycles int64
+	reads  bool
 }
 
 func (w *world) log(s string) {
@@ -86,6 +87,11 @@ func (w *world) expected(p lcdref.Pos, first bool) (vb, st, stMay bool) {
 }
 
 func (w *world) tick() bool {
+	if w.reads {
+		// the guest polls STAT and LY in every cycle (a read has no effect on anything)
+		_ = w.m.Mem.Read(0xff41)
+		_ = w.m.Mem.Read(0xff44)
+	}
 	w.m.PPU.EndMachineCycle()
 	w.m.Mem.EndMachineCycle()
 	w.t++
@@ -197,6 +203,10 @@ func run(c *rig.Ctx) {
 		src := srcs[i%int64(len(srcs))]
 		lyc := lycs[i/int64(len(srcs))]
 		w := newWorld(c, src, lyc)
+		w.reads = (i/int64(len(srcs)))%2 == 1
+		if w.reads {
+			c.Count("runs_polling_stat_every_cycle", 1)
+		}
 		for k := 0; k < 3*lcdref.FrameLen+50; k++ {
 			if !w.tick() {
 				return
@@ -211,6 +221,42 @@ func run(c *rig.Ctx) {
 		}
 	})
 	c.MarkExhaustive("each single STAT source (and none) x LYC 0..153, 154, 200, 255 x 3 frames from switch-on")
+
+	// (1a) the LCD is switched off in every cycle around each event (and everywhere on the
+	// lines concerned): from the store on nothing may be requested, in that cycle either
+	offLines := []int{0, 1, 142, 143, 144, 145, 153}
+	c.Part("switch-off", int64(len(srcs)*len(offLines))*lcdref.LineLen, func(i int64, r *rig.Rng) {
+		off := int(i % lcdref.LineLen)
+		k := int(i / lcdref.LineLen)
+		src := srcs[k%len(srcs)]
+		line := offLines[k/len(srcs)]
+		lyc := uint8(line)
+		if r.Chance(1, 3) {
+			lyc = uint8(r.Intn(154))
+		}
+		w := newWorld(c, src, lyc)
+		target := int64(lcdref.FrameLen-2) + int64(line)*lcdref.LineLen + int64(off)
+		for w.t < target {
+			if !w.tick() {
+				return
+			}
+		}
+		w.lcdc(onValue & 0x7f)
+		c.Count("switch_offs", 1)
+		for k := 0; k < 400; k++ {
+			if !w.tick() {
+				return
+			}
+		}
+		w.lcdc(onValue)
+		for k := 0; k < lcdref.FrameLen+300; k++ {
+			if !w.tick() {
+				return
+			}
+		}
+		c.Exact(1)
+	})
+	c.MarkExhaustive("LCD switched off at every cycle offset of lines {0,1,142,143,144,145,153} x each single source")
 
 	// (1b) long runs: VBlank once per frame and the STAT edges whatever the number of frames
 	c.Part("long", 5, func(i int64, r *rig.Rng) {
